@@ -156,6 +156,8 @@ class Interface(ModelElement):
         node_id = self.topo.graph_model.find_child_connection_point_by_name(parent_node_id=self.node_id,
                                                                             iname=name)
 
+        # disconnect the sub-interface from a network service first (removes the ServicePort and link)
+        self.topo._disconnect_interfaces([Interface(name=name, node_id=node_id, topo=self.topo)])
         self.topo.graph_model.remove_cp_and_links(node_id=node_id, delete_parent=False)
         # remove from interface list as well
         self._interfaces = list(filter((lambda x: x.node_id != node_id), self._interfaces))
